@@ -336,7 +336,18 @@ class InfixExpression(FilterExpression):
     def __str__(self) -> str:
         if self.logical:
             return f"({self.left} {self.operator} {self.right})"
-        return f"{self.left} {self.operator} {self.right}"
+        return (
+            f"{self._operand_str(self.left)} {self.operator} "
+            f"{self._operand_str(self.right)}"
+        )
+
+    @staticmethod
+    def _operand_str(expr: FilterExpression) -> str:
+        # A comparison used as an operand of another comparison was written in
+        # parentheses. Without them the text would regroup left to right.
+        if isinstance(expr, InfixExpression) and not expr.logical:
+            return f"({expr})"
+        return str(expr)
 
     def __eq__(self, other: object) -> bool:
         return (
